@@ -116,6 +116,8 @@ pub struct Cfg {
     /// the client keeps the connection open until this virtual time (ms), writing one small
     /// stream every `tick_ms` (0 = no hold phase)
     pub hold_ms: u64,
+    /// after the workload the client enables keep-alive, stays silent this long, then sends one more stream (0 = off)
+    pub quiet_ms: u64,
     pub tick_ms: u64,
     /// also trace datagrams the ENDPOINT could not route to a connection
     /// (`ev <t> <ep> - transport:endpoint_datagram_dropped …`; off by default)
@@ -207,6 +209,7 @@ impl Default for Cfg {
             cid_len: 0,
             rotate_handshake_cid: -1,
             hold_ms: 0,
+            quiet_ms: 0,
             tick_ms: 1000,
             endpoint_drops: false,
             deadline_ms: 600_000,
@@ -336,6 +339,7 @@ impl Cfg {
                 "cid_len" => c.cid_len = n()?,
                 "rotate_handshake_cid" => c.rotate_handshake_cid = n()? as i64,
                 "hold_ms" => c.hold_ms = n()?,
+                "quiet_ms" => c.quiet_ms = n()?,
                 "tick_ms" => c.tick_ms = n()?.max(1),
                 "endpoint_drops" => c.endpoint_drops = n()? != 0,
                 "deadline_ms" => c.deadline_ms = n()?,
